@@ -8,9 +8,14 @@
   * `keep_tables_eq_spec_partial`  regenerated tables = specification tables for every registered
     version, except the one entry `keep_tables_v11_member_deviates` pins down (known finding).
   * `algos_ok`                     structural facts about the regenerated tables the proofs use.
-  * `redact_exact`                 on well-formed events: exactly the kept keys, values unchanged.
+  * `redact_exact`                 exactly the kept keys (compared as exact strings: a case variant such as
+                                   `Event_id` or `Sender` is dropped like any other unlisted key), values unchanged;
+                                   needs only: `type` a string, `content` an object without duplicate keys.
+  * `redact_drops_unlisted`        a key the event does not have (as an exact key) is not in the redaction.
   * `redact_idem`                  redacting a redacted event succeeds and changes nothing.
-  * `redact_preserves_ids`         type, sender, room_id, state_key as every struct decoder reads them.
+  * `redact_preserves_ids`         type, sender, room_id, state_key as every struct decoder reads them (for events
+                                   without duplicate keys / case variants of struct fields: the event structs' own
+                                   decoding is encoding/json's lenient one).
   * `redact_preserves_reference`   reference hash input / event ID of the redacted event = the original's.
   * `redact_preserves_signatures`  `signatures` kept verbatim, signing payload unchanged, hence every
                                    signature check has the same outcome on the redacted event.
@@ -110,11 +115,11 @@ def keepTop (a : Algo) : List Bytes := a.fields.map (·.name)
 
 /-! ## Exactness -/
 
-/-- Well-formed events (the domain of `redact_exact`): an object without duplicate keys and
-    without case variants of protected keys, whose `type` is a string and whose `content` is an
-    object without duplicate keys. -/
-structure WfEvent (a : Algo) (kvs : Obj) (ty : Bytes) (m : Obj) : Prop where
-  top : WfTop a.fields kvs
+/-- The domain of `redact_exact`: `type` is a string and `content` an object without duplicate keys
+    (of several top-level members with the same key the last one counts, as `lookupExact` reads it).
+    Nothing is assumed about the other top-level keys: duplicates and case variants of protected
+    keys are inside the quantifier since the repair of `redactEventJSON` (exact key matching). -/
+structure WfEvent (kvs : Obj) (ty : Bytes) (m : Obj) : Prop where
   type : lookupExact kvs b!"type" = some (.str ty)
   content : lookupExact kvs b!"content" = some (.obj m)
   mnodup : (keysOf m).Nodup
@@ -133,12 +138,13 @@ theorem shape_names {a : Algo} (h : shapeOk a = true) :
       simp only [Option.map_some, Option.some.injEq] at h1 h2
       exact ⟨tf, cf, rfl, rfl, h1, h2⟩
 
-/-- **Exactness.**  Redacting a well-formed event keeps exactly the top-level keys the version's
-    algorithm lists (`type` and `content` always, the others when present), with unchanged values,
-    and inside `content` exactly the keys the algorithm lists for the event's type, with unchanged
-    values; nothing else survives. -/
+/-- **Exactness.**  Redacting an event keeps exactly the top-level keys the version's algorithm
+    lists (`type` and `content` always, the others when present), with unchanged values, and inside
+    `content` exactly the keys the algorithm lists for the event's type, with unchanged values;
+    nothing else survives — in particular no member under a case variant of a listed key, and no
+    listed key that the event did not carry under exactly that name. -/
 theorem redact_exact {ver : Bytes} {a : Algo} (ha : algoOf ver = some a) {kvs : Obj} {ty : Bytes} {m : Obj}
-    (W : WfEvent a kvs ty m) {v : JVal} (h : redactJSON ver (.obj kvs) = .ok v) :
+    (W : WfEvent kvs ty m) {v : JVal} (h : redactJSON ver (.obj kvs) = .ok v) :
     ∃ r kept, v = .obj r ∧
       (∀ kv ∈ r, kv.1 ∈ keepTop a) ∧
       lookupExact r b!"type" = some (.str ty) ∧
@@ -147,10 +153,10 @@ theorem redact_exact {ver : Bytes} {a : Algo} (ha : algoOf ver = some a) {kvs : 
       (∀ k, mapGet kept k = if keeps a.ctable ty k then mapGet m k else none) := by
   obtain ⟨hT, hS⟩ := algoOf_ok ha
   obtain ⟨tf, cf, htf, hcf, hn1, hn2⟩ := shape_names hS
-  have h' : redactObj a kvs = .ok v := by
-    simpa [redactJSON, ha, redactWith] using h
+  have h' : redactWith a (.obj kvs) = .ok v := by
+    simpa [redactJSON, ha] using h
   obtain ⟨r, kept, hv, e1, e2, e3, e4, e5⟩ :=
-    redactObj_exact hT htf hcf W.top (ty := ty) (m := m) (by rw [hn1]; exact W.type) (by rw [hn2]; exact W.content) W.mnodup h'
+    redactWith_exact hT htf hcf (ty := ty) (m := m) (by rw [hn1]; exact W.type) (by rw [hn2]; exact W.content) W.mnodup h'
   refine ⟨r, kept, hv, ?_, by rw [← hn1]; exact e1, by rw [← hn2]; exact e2, ?_, e3⟩
   · intro kv hkv
     obtain ⟨f, hf, hk⟩ := e5 kv hkv
@@ -166,6 +172,27 @@ theorem redact_exact {ver : Bytes} {a : Algo} (ha : algoOf ver = some a) {kvs : 
     · exact absurd ht hk1
     · exact absurd hc hk2
 
+/-- **Nothing is invented.**  For EVERY event the library can redact (no side condition): a key other
+    than `type` and `content` that the event does not carry — as that exact string — is not in the
+    redaction.  (Before the repair a member `Event_id` came out as `event_id`.) -/
+theorem redact_drops_unlisted {ver : Bytes} {kvs r : Obj} (h : redactJSON ver (.obj kvs) = .ok (.obj r))
+    {k : Bytes} (hk1 : k ≠ b!"type") (hk2 : k ≠ b!"content") (hk : lookupExact kvs k = none) : lookupExact r k = none := by
+  cases ha : algoOf ver with
+  | none => simp [redactJSON, ha] at h
+  | some a =>
+    obtain ⟨hT, hS⟩ := algoOf_ok ha
+    have h' : redactWith a (.obj kvs) = .ok (.obj r) := by simpa [redactJSON, ha] using h
+    apply redactWith_absent hT h' hk
+    intro f hf hfn
+    have hall : a.fields.all (fun f => f.kind == .raw || f.name == b!"type" || f.name == b!"content") = true := by
+      simp only [shapeOk, Bool.and_eq_true] at hS; exact hS.1.2
+    have := List.all_eq_true.mp hall f hf
+    simp only [Bool.or_eq_true, beq_iff_eq] at this
+    rcases this with (hraw | ht) | hc
+    · exact hraw
+    · exact absurd (hfn ▸ ht) hk1
+    · exact absurd (hfn ▸ hc) hk2
+
 /-! ## Idempotence -/
 
 /-- **Idempotence.**  Whatever `RedactEventJSON` returns, redacting it again succeeds and returns it
@@ -178,24 +205,16 @@ theorem redact_idem {ver : Bytes} {j v : JVal} (h : redactJSON ver j = .ok v) : 
     rw [ha] at h
     simp only at h ⊢
     obtain ⟨hT, _⟩ := algoOf_ok ha
-    have hobj : ∃ kvs, redactObj a kvs = .ok v := by
-      unfold redactWith at h
-      split at h
-      · exact ⟨_, h⟩
-      · exact ⟨_, h⟩
-      · cases h
-    obtain ⟨kvs, hk⟩ := hobj
-    obtain ⟨r, hv, hr⟩ := redactObj_idem hT hk
-    subst hv
-    exact hr
+    exact redactWith_idem hT h
 
 /-! ## Identity fields -/
 
 theorem members_eq_sel (kvs : Obj) (n : Bytes) : EventParse.members kvs n = (sel n kvs).map (·.2) := rfl
 
-/-- in a well-formed event and in its redaction, a kept raw field selects the same members -/
-theorem members_redacted {ver : Bytes} {a : Algo} (ha : algoOf ver = some a) {kvs : Obj} {ty : Bytes} {m : Obj}
-    (W : WfEvent a kvs ty m) {r : Obj} (h : redactJSON ver (.obj kvs) = .ok (.obj r))
+/-- in an event without duplicate keys / case variants of protected keys and in its redaction, a kept
+    raw field selects the same members -/
+theorem members_redacted {ver : Bytes} {a : Algo} (ha : algoOf ver = some a) {kvs : Obj}
+    (T : WfTop a.fields kvs) {r : Obj} (h : redactJSON ver (.obj kvs) = .ok (.obj r))
     {n : Bytes} (hn : a.fields.any (fun f => f.name == n && f.kind == .raw) = true) :
     EventParse.members r n = EventParse.members kvs n := by
   obtain ⟨hT, hS⟩ := algoOf_ok ha
@@ -203,18 +222,18 @@ theorem members_redacted {ver : Bytes} {a : Algo} (ha : algoOf ver = some a) {kv
   simp only [Bool.and_eq_true, beq_iff_eq] at hfn
   obtain ⟨hname, hraw⟩ := hfn
   subst hname
-  have h' : redactObj a kvs = .ok (.obj r) := by simpa [redactJSON, ha, redactWith] using h
+  have h' : redactObj a (exactFields a.fields kvs) = .ok (.obj r) := by simpa [redactJSON, ha, redactWith] using h
   obtain ⟨tf, cf, F, hv⟩ := redactObj_ok h'
   obtain ⟨hdist, _, _, _⟩ := tablesOk_parts hT
-  have hr : r = outputOf a kvs tf cf := by injection hv
+  have hr : r = outputOf a (exactFields a.fields kvs) tf cf := by injection hv
   rw [members_eq_sel, members_eq_sel, hr]
-  have hsel := sel_flatMap_emit (emitField kvs (decType tf.name kvs).val
-      (newContent a.ctable (decType tf.name kvs).val (decContent cf.name kvs).val))
+  have hsel := sel_flatMap_emit (emitField (exactFields a.fields kvs) (decType tf.name (exactFields a.fields kvs)).val
+      (newContent a.ctable (decType tf.name (exactFields a.fields kvs)).val (decContent cf.name (exactFields a.fields kvs)).val))
       (fun g kv hkv => emitField_name hkv) a.fields hdist f hf
-  have : sel f.name (outputOf a kvs tf cf) = _ := hsel
-  rw [this, sel_wf W.top hf]
+  have : sel f.name (outputOf a (exactFields a.fields kvs) tf cf) = _ := hsel
+  rw [this, sel_wf T hf]
   simp only [emitField, hraw]
-  rw [lookupField_eq_exact W.top hf]
+  rw [lookupField_eq_exact (exactFields_wf hdist kvs) hf, lookupExact_exactFields (names_nodup hdist) kvs hf]
   cases lookupExact kvs f.name <;> rfl
 
 theorem shape_has {a : Algo} (h : shapeOk a = true) (n : Bytes)
@@ -224,41 +243,40 @@ theorem shape_has {a : Algo} (h : shapeOk a = true) (n : Bytes)
   exact List.all_eq_true.mp h.2 n hn
 
 /-- **Identity fields.**  Redaction never changes what the event structs read as type, sender, room
-    ID and state key (for every struct format, i.e. whatever decoder is applied to those members). -/
+    ID and state key (for every struct format, i.e. whatever decoder is applied to those members).
+
+    Side condition `T` (no duplicate top-level keys, no case variant of a protected key): it is about
+    the event structs, not about redaction — `eventV1` / `eventV2` are filled by encoding/json, which
+    reads `Sender` or a second `sender` member into the sender field; redaction keeps the exact key
+    `sender` only (the last one).  Without `T` the statement is false in both directions of the repair:
+    before it, `{"sender":"@a:h","Sender":"@b:h"}` kept only one of the two; after it, an event whose
+    only sender member is spelt `Sender` reads as sent by nobody once redacted. -/
 theorem redact_preserves_ids {ver : Bytes} {a : Algo} (ha : algoOf ver = some a) {kvs : Obj} {ty : Bytes} {m : Obj}
-    (W : WfEvent a kvs ty m) {r : Obj} (h : redactJSON ver (.obj kvs) = .ok (.obj r)) (fmt : EventParse.Fmt) :
+    (T : WfTop a.fields kvs) (W : WfEvent kvs ty m) {r : Obj} (h : redactJSON ver (.obj kvs) = .ok (.obj r)) (fmt : EventParse.Fmt) :
     (EventParse.decodeFields fmt r).f.type = (EventParse.decodeFields fmt kvs).f.type ∧
     (EventParse.decodeFields fmt r).f.sender = (EventParse.decodeFields fmt kvs).f.sender ∧
     (EventParse.decodeFields fmt r).f.roomID = (EventParse.decodeFields fmt kvs).f.roomID ∧
     (EventParse.decodeFields fmt r).f.stateKey = (EventParse.decodeFields fmt kvs).f.stateKey := by
   obtain ⟨hT, hS⟩ := algoOf_ok ha
-  have hs := members_redacted ha W h (shape_has hS b!"sender" (by simp))
-  have hr := members_redacted ha W h (shape_has hS b!"room_id" (by simp))
-  have hk := members_redacted ha W h (shape_has hS b!"state_key" (by simp))
+  have hs := members_redacted ha T h (shape_has hS b!"sender" (by simp))
+  have hr := members_redacted ha T h (shape_has hS b!"room_id" (by simp))
+  have hk := members_redacted ha T h (shape_has hS b!"state_key" (by simp))
   -- the type: both sides hold the single member `.str ty`
   obtain ⟨tf, cf, htf, hcf, hn1, hn2⟩ := shape_names hS
-  obtain ⟨htfm, _⟩ := typeField_mem htf
+  obtain ⟨htfm, htfk⟩ := typeField_mem htf
+  obtain ⟨hdist, _, htfo, _⟩ := tablesOk_parts hT
   have ht : EventParse.members r b!"type" = EventParse.members kvs b!"type" := by
-    obtain ⟨r', kept, hv, _, e1, _, _, _⟩ := redact_exact ha W h
+    obtain ⟨r', kept, hv, hkeys, e1, _, _, _⟩ := redact_exact ha W h
     have hr' : r = r' := by injection hv
     subst hr'
-    have h' : redactObj a kvs = .ok (.obj r) := by simpa [redactJSON, ha, redactWith] using h
+    -- `r` has no duplicate keys and no case variants, so `type` selects the one member `lookupExact` finds
+    have h' : redactObj a (exactFields a.fields kvs) = .ok (.obj r) := by simpa [redactJSON, ha, redactWith] using h
     obtain ⟨tf', cf', F, hv'⟩ := redactObj_ok h'
-    have e1' : tf' = tf := by have := F.htf; rw [htf] at this; exact (Option.some.inj this).symm
-    subst e1'
-    obtain ⟨hdist, _, htfo, _⟩ := tablesOk_parts hT
-    have hro : r = outputOf a kvs tf' cf' := by injection hv'
-    rw [members_eq_sel, members_eq_sel, ← hn1, hro]
-    have hsel := sel_flatMap_emit (emitField kvs (decType tf'.name kvs).val
-        (newContent a.ctable (decType tf'.name kvs).val (decContent cf'.name kvs).val))
-        (fun g kv hkv => emitField_name hkv) a.fields hdist tf' htfm
-    have : sel tf'.name (outputOf a kvs tf' cf') = _ := hsel
-    rw [this, sel_wf W.top htfm]
-    have hty : lookupExact kvs tf'.name = some (.str ty) := by rw [hn1]; exact W.type
-    have hdt : decType tf'.name kvs = ⟨ty, false⟩ := by
-      rw [decType_sel, sel_wf W.top htfm, hty]; simp [typeStep]
-    obtain ⟨_, htfk⟩ := typeField_mem htf
-    simp [emitField, htfk, htfo tf' htf, hdt, hty]
+    have hro : r = outputOf a (exactFields a.fields kvs) tf' cf' := by injection hv'
+    have Wr : WfTop a.fields r := by
+      rw [hro, ← exactFields_output hdist]
+      exact exactFields_wf hdist _
+    rw [members_eq_sel, members_eq_sel, ← hn1, sel_wf Wr htfm, sel_wf T htfm, hn1, e1, W.type]
   simp only [EventParse.decodeFields, ht, hs, hr, hk, and_self]
 
 /-! ## Reference hash, event ID, signatures -/
@@ -305,9 +323,9 @@ theorem redact_preserves_signatures {ver : Bytes} {j v : JVal} (h : redactJSON v
   intro verify name kid pk
   simp only [sigValid, hp, hs]
 
-/-- On a well-formed event the `signatures` member is kept verbatim. -/
+/-- The `signatures` and `hashes` members are kept verbatim. -/
 theorem redact_keeps_signatures_member {ver : Bytes} {a : Algo} (ha : algoOf ver = some a) {kvs : Obj} {ty : Bytes} {m : Obj}
-    (W : WfEvent a kvs ty m) {r : Obj} (h : redactJSON ver (.obj kvs) = .ok (.obj r)) :
+    (W : WfEvent kvs ty m) {r : Obj} (h : redactJSON ver (.obj kvs) = .ok (.obj r)) :
     lookupExact r b!"signatures" = lookupExact kvs b!"signatures" ∧ lookupExact r b!"hashes" = lookupExact kvs b!"hashes" := by
   obtain ⟨_, hS⟩ := algoOf_ok ha
   obtain ⟨r', kept, hv, _, _, _, e4, _⟩ := redact_exact ha W h
@@ -344,10 +362,26 @@ example : okWith (redactJSON b!"10" (.obj exEvent)) (encode (.obj exRedacted)) =
 /-- and the algorithm of version 10 exists -/
 example : (algoOf b!"10").isSome = true := by decide +kernel
 
-/-- its top-level shape is well-formed for that algorithm (no duplicate keys, no case variants) -/
+/-- its top-level shape satisfies `WfTop` for that algorithm (no duplicate keys, no case variants): the side
+    condition of `redact_preserves_ids` -/
 example : (match algoOf b!"10" with
     | some a => noDupIn (exEvent.map (·.1)) &&
         exEvent.all (fun kv => a.fields.all (fun f => !(foldBytes kv.1 == foldBytes f.name) || kv.1 == f.name))
     | none => false) = true := by decide +kernel
+
+/-- `redact_exact` / `redact_drops_unlisted` need no such condition.  The same event with case variants of
+    protected keys (`Event_id`, `Sender`, `ſtate_key` with U+017F, `Content`, `HASHES`), an ill-typed earlier
+    duplicate of `type` and an earlier duplicate of `content`: the variants are dropped like any unlisted
+    key, the last exact member counts — the redaction is `exRedacted` again. -/
+def exVariants : Obj := [
+  (b!"Event_id", .str b!"$chosen"), (b!"type", .num b!"5"), (b!"Sender", .str b!"@evil:b"),
+  (b!"content", .obj [(b!"membership", .str b!"ban")]), (b!"ſtate_key", .str b!"@evil:b"),
+  (b!"HASHES", .obj [(b!"sha256", .str b!"x")]), (b!"Content", .obj [(b!"membership", .str b!"leave")])] ++ exEvent
+
+example : okWith (redactJSON b!"10" (.obj exVariants)) (encode (.obj exRedacted)) = true := by decide +kernel
+
+example : WfEvent exVariants b!"m.room.member"
+    [(b!"membership", .str b!"join"), (b!"displayname", .str b!"A"), (b!"n", .num b!"5")] :=
+  ⟨by rfl, by rfl, by decide +kernel⟩
 
 end V.C05
